@@ -221,6 +221,38 @@ func runC19(c *Ctx) {
 
 	// ---- O-5: window predicate orientation ----
 	c.checkWindowPredicate()
+	// ---- O-5c: the journal is read to its end or the reader says so ----
+	{
+		ruleS := "O-5c the journal reader does not stop silently"
+		n := 0
+		for _, fn := range p.FnsIn("common/ipsetsink/sinkcluster", "distinctcounter") {
+			for _, ci := range callsTo(fn, "bufio.NewScanner") {
+				n++
+				sc, _ := ci.(*ssa.Call)
+				// the scanner's Err() must be consulted and handed to the caller: a line beyond
+				// the scanner's buffer limit (a sketch of a busy interval encodes to more than
+				// 64 KiB) or a read error otherwise ends the loop like a clean end of file
+				consulted := false
+				for _, e := range callsTo(fn, "(*bufio.Scanner).Err") {
+					ec, _ := e.(*ssa.Call)
+					if sc == nil || ec == nil || !isResultOfCall1(ec.Call.Args[0], sc, 0) {
+						continue
+					}
+					for _, r := range returnsOf(fn) {
+						ei := errResultIndex(fn.Signature)
+						if ei >= 0 && flowsLocal(retVal(r, ei), func(v ssa.Value) bool { return v == ssa.Value(ec) }) {
+							consulted = true
+						}
+					}
+				}
+				c.check(consulted, ruleS, p.FnName(fn)+" returns the scanner's error", p.instrPos(ci), "Scanner.Err() reaches the error result",
+					"the journal is read with a bufio.Scanner whose Err() is never returned: a chunk line longer than the scanner's limit (64 KiB by default; one interval with some tens of thousands of addresses) silently ends the scan and the published estimate leaves out that chunk and all later ones")
+			}
+		}
+		if n == 0 {
+			c.ok(ruleS, "the journal reader uses no length-limited line scanner", "-", "no bufio.Scanner in sinkcluster/distinctcounter")
+		}
+	}
 	// ---- O-5b: one record per journal line ----
 	{
 		ruleF := "O-5b one record per journal line"
